@@ -1990,3 +1990,118 @@ def check_C17(run):
     run.cov['trusted_base'] = C.GLOBAL_TRUST + ['real thread timing is sampled (jitter hook); the schedule quantifier is carried by C17_terminates / C17_exactly_once over the transition system + the extracted worker-loop features',
                                                 'parent-before-child order is checked on the real walker only (oracle) and pinned by the extracted feature "entry sent before the job is queued"; it has no Lean theorem',
                                                 'crossbeam channels are FIFO; read_dir returns every entry once']
+
+
+# ------------------------------------------------------------------ C19
+
+def c19_panic_class(ans):
+    import re
+    if not ans.startswith('panic'):
+        return None
+    msg = bytes.fromhex(ans.split('msg=')[1]).decode(errors='replace') if 'msg=' in ans else ''
+    for pat, k in (('overflow', 'arithmetic-overflow'), ('divide by zero', 'divide-by-zero'), ('split index', 'split_off-out-of-range'), ('out of range for slice', 'slice-out-of-range'),
+                   ('assertion failed: new_section_name', 'name-longer-than-8'), ('range start index', 'slice-out-of-range'), ('range end index', 'slice-out-of-range')):
+        if pat in msg:
+            return k
+    return 'other:' + re.sub(r'\d+', 'N', msg)[-80:]
+
+
+@prop('C19')
+def check_C19(run):
+    from . import exegen as G, l3
+    import shutil, subprocess, struct
+    thorough = run.tier == 'thorough'
+    if not prepare(run, need_cli=True):
+        return
+    C.proofs_step(run, 'C19')
+    rng = run.rng
+    run.cov['rule'] = ('L1: the real add/extract functions of exe_utils (dev profile, under catch_unwind) on synthetic ELF64 / PE images with varied geometry (section counts, names-section position, header gaps 0..80, '
+                       'file/section alignments 1..64 KiB, payloads 0..4 KiB; thorough: to 1 MiB) and on truncations / field corruptions of them: output bytes / error / panic = model, byte for byte; oracle: extract(add(x)) returns the payload '
+                       '(PE: zero-padded to the file alignment) and every byte of the original image survives; L4: the section is added to the freshly built rjrssync binary, which must still run and list the embedded binaries; '
+                       'non-trivial = a valid layout or a corruption that reaches past the header checks; distinct by request line')
+    lines, meta = [], []
+    for i in range(1500 if not thorough else 30000):
+        kind = rng.choice(['elf', 'pe'])
+        img = G.make_elf(rng) if kind == 'elf' else G.make_pe(rng)
+        corrupted = rng.random() < 0.45
+        if corrupted:
+            img = G.corrupt(rng, img)
+        payload = bytes(rng.getrandbits(8) for _ in range(rng.choice([0, 1, 5, 33, 100, 1000, 4096] + ([1 << 20] if thorough and i % 500 == 0 else []))))
+        name = rng.choice(['.rjembed'] * 8 + ['x', 'toolongname9'])
+        lines.append(f'exe add{kind} {C.X(img)} {C.X(name)} {C.X(payload)}'); meta.append((kind, 'add', corrupted, img, name, payload))
+        lines.append(f'exe ext{kind} {C.X(img)} {C.X(rng.choice([name, ".s1", ".shstrtab", ".s0"]))}'); meta.append((kind, 'ext', corrupted, img, name, payload))
+    impl = [a for a, _ in C.run_harness(lines, timeout=1800)]
+    model = C.run_model(lines, timeout=1800)
+    known = [f for f in C.load_known()['open'] if f.get('id') == 'C19-F9']
+    known_classes = set(known[0]['panic_classes']) if known else set()
+    panic_seen, second, bad = {}, [], None
+    for l, (kind, op, corrupted, img, name, payload), i_ans, m_ans in zip(lines, meta, impl, model):
+        i_core = i_ans.split(' msg=')[0]
+        nt = not corrupted or i_core != 'err'
+        run.case(('exe', l), nt, sample=dict(layer='L1', op=op + kind, corrupted=corrupted, image_bytes=len(img), payload_bytes=len(payload), impl=i_core[:60]) if nt and len(run.cov['samples']) < 5 else None)
+        run.count(f'exe:{op}{kind}:' + i_core.split(':')[0]); run.cov['traces_validated_against_impl'] += 1
+        if i_core != m_ans and bad is None:
+            bad = dict(request_line=l[:3000], impl=i_ans[:300], model=m_ans[:300])
+        pc = c19_panic_class(i_ans)
+        if pc:
+            panic_seen.setdefault((op + kind, pc), l)
+        if op == 'add' and i_core.startswith('ok:') and not corrupted:
+            second.append((kind, img, name, payload, bytes.fromhex(i_core[4:])))
+    run.cov['disagreements_checked'] += len(lines)
+    # round trip + preservation oracle on the implementation
+    l2_ = [f'exe ext{kind} {C.X(out)} {C.X(name)}' for kind, img, name, payload, out in second]
+    back = [a for a, _ in C.run_harness(l2_, timeout=1800)]
+    mback = C.run_model(l2_, timeout=1800)
+    for (kind, img, name, payload, out), a, m, l in zip(second, back, mback, l2_):
+        run.count(f'roundtrip:{kind}'); run.cov['traces_validated_against_impl'] += 1
+        if a.split(' msg=')[0] != m and bad is None:
+            bad = dict(request_line=l[:3000], impl=a[:300], model=m[:300])
+        got = bytes.fromhex(a[4:]) if a.startswith('ok:x') else None
+        ok = got is not None and got[:len(payload)] == payload and not any(got[len(payload):]) and (kind == 'pe' or got == payload)
+        if kind == 'elf':
+            # bytes before the end of the names section are unchanged
+            strndx = struct.unpack_from('<H', img, 0x3E)[0]; shoff = struct.unpack_from('<Q', img, 0x28)[0]
+            no, ns = struct.unpack_from('<QQ', img, shoff + strndx * 64 + 0x18)
+            ok = ok and out[0x40:no + ns] == img[0x40:no + ns] and out[:0x28] == img[:0x28]
+        if not ok:
+            run.violation(dict(kind='oracle-failed-on-implementation', oracle='extract(add(image, payload)) returns the payload (PE: zero padded) and the original bytes survive', layer='L1',
+                               image_kind=kind, image=img.hex()[:2000], payload=payload.hex()[:400], extracted=a[:400])); break
+    if bad:
+        run.violation(dict(kind='correspondence-broken', correspondence='L1/exe_utils byte-exact', note='outputs, errors and panics must agree', **bad), no_input=True)
+    # panics on malformed input: the recorded finding, by (function, class)
+    new = {k: v for k, v in panic_seen.items() if f'{k[0]}:{k[1]}' not in known_classes}
+    for (fn, pc), l in sorted(panic_seen.items()):
+        if f'{fn}:{pc}' in known_classes:
+            pass
+    if panic_seen and not new:
+        run.known.append('C19-F9: exe_utils panics instead of returning an error on malformed executables / an empty payload: ' + ', '.join(sorted(f'{a}:{b}' for a, b in panic_seen)))
+    for (fn, pc), l in sorted(new.items())[:2]:
+        run.violation(dict(kind='oracle-failed-on-implementation', oracle='a malformed executable is rejected with an error rather than a crash (panic class not among the recorded ones)', layer='L1',
+                           function=fn, panic_class=pc, request_line=l[:3000]))
+    # L4: the real binary
+    d = l3.scratch()
+    try:
+        triple = b'x86_64-unknown-linux-gnu'; data = b'not really a binary'
+        payload = b'\x00' + struct.pack('<Q', 1) + struct.pack('<Q', len(triple)) + triple + struct.pack('<Q', len(data)) + data
+        open(os.path.join(d, 'payload'), 'wb').write(payload)
+        out = os.path.join(d, 'augmented')
+        ans = C.run_harness(['exefile ' + ' '.join(C.X(x) for x in (C.CLI_BIN, out, os.path.join(d, 'payload'), '.rjembed'))])[0][0]
+        run.case(('real-binary',), True, sample=dict(layer='L4', add_to_real_binary=ans)); run.count('real-binary')
+        if not ans.startswith('ok:'):
+            run.violation(dict(kind='oracle-failed-on-implementation', oracle='the section can be added to the freshly built binary', layer='L4', impl=ans))
+        else:
+            os.chmod(out, 0o755)
+            v1 = subprocess.run([C.CLI_BIN, '--version'], capture_output=True, text=True, env=C.ENV)
+            v2 = subprocess.run([out, '--version'], capture_output=True, text=True, env=C.ENV)
+            le = subprocess.run([out, '--list-embedded-binaries'], capture_output=True, text=True, env=C.ENV)
+            sd = os.path.join(d, 'sync'); l3.make_tree(sd + '/src', [('', 'D'), ('f', 'F', b'hello', 10**18)])
+            sy = subprocess.run([out, sd + '/src/', sd + '/dst/'], capture_output=True, text=True, env=C.ENV)
+            if v1.stdout != v2.stdout or v2.returncode != 0 or le.returncode != 0 or 'x86_64-unknown-linux-gnu' not in le.stdout or sy.returncode != 0 or not os.path.exists(sd + '/dst/f'):
+                run.violation(dict(kind='oracle-failed-on-implementation', oracle='the augmented binary behaves like the original and reports the embedded binaries', layer='L4',
+                                   version=(v1.stdout, v2.stdout, v2.returncode), list_embedded=(le.returncode, le.stdout[-300:], le.stderr[-300:]), sync_rc=sy.returncode))
+    finally:
+        shutil.rmtree(d, ignore_errors=True)
+    run.cov['panic_classes_seen'] = sorted(f'{a}:{b}' for a, b in panic_seen)
+    run.cov['trusted_base'] = C.GLOBAL_TRUST + ['dev-profile integer semantics (overflow checks on) is what the harness and the suite run; the release profile differs only where an overflow occurs',
+                                                'PARTIAL: the general round-trip / preservation statement over all valid layouts is carried by the byte-exact correspondence + oracle, not by a Lean theorem; Windows loading of the PE result cannot be exercised here (no PE can run)',
+                                                'deployment of the augmented binary through fake scp + handshake is covered by C15\'s launch matrix']
